@@ -21,7 +21,7 @@ chk("C07", "exploration", "E4",
 chk("C12", "exploration", "E4",
     "bounded-exhaustive enumeration of all feed-forward DAGs on a small node set, every solver entry point vs a topological-order reference",
     "Every feed-forward edge set over {bias, input(s), <=2..3 hidden, output(s)} in which every neuron is reachable from a sensor is built as a real Network; under weight rotations, every registered activation type (uniform and mixed) and every input vector over a 4-value alphabet, Network.ForwardSteps(D), ForwardSteps(D+2), RecursiveSteps and the fast solver's ForwardSteps(D), ForwardSteps(D+2), RecursiveSteps and Relax (the fast solver derived from the network, restored from its written model, and constructed directly with bias links as connections, flushed before use; and one derived solver used through another entry point on another input and flushed) are compared (1e-11 relative) with a Kahn-order evaluation that uses the library's registered activation functions. The space named in the evidence rule is enumerated completely.",
-    "Node sets bounded (quick 5 nodes, thorough up to 7); RecursiveSteps of the standard solver is also evaluated after depth queries (caps 1, 2, none, 1) on the same network; besides one handle per network, a second fast solver derived from the same network is loaded and run between load and evaluation of the first; weights/inputs from non-saturating menus; the activation functions themselves are trusted here (C18 checks them).",
+    "Node sets bounded (quick 5 nodes, thorough up to 7) in the exhaustive part; a deep-chain stage takes every chain length up to 80 (thorough 400) with a skip link and bias links through five entry points; RecursiveSteps of the standard solver is also evaluated after depth queries (caps 1, 2, none, 1) on the same network; besides one handle per network, a second fast solver derived from the same network is loaded and run between load and evaluation of the first; weights/inputs from non-saturating menus; the activation functions themselves are trusted here (C18 checks them).",
     "DESIGN.md section 3 C12")
 
 chk("C14", "exploration", "E4",
